@@ -218,6 +218,7 @@ theorem write_atomic_slice_e2e (cfg : Cfg) (w : Cli.World Ext) (sess : Nat) (cid
   obtain ⟨haty, hentry, hndw, hpos, hle8⟩ := ldr_atomic_table c sz name t hat hb hsz
   have hshape := ldr_atomicTy_shape c t haty hb
   have hel := ldw2_encode_arr_list t vs n bytes hb hvs henc
+  rw [RT.encodeList_argOf_canon t vs hcanon] at hel
   obtain ⟨hbl, hchunks⟩ := ldw2_encodeList_chunks (encode t) sz vs bytes
     (fun x hx e he => ldw_encode_length c sz t x e haty hb hsz (hcanon x hx) he) hel
   rw [hvs] at hbl
@@ -458,6 +459,7 @@ theorem write_fragmented_e2e (cfg : Cfg) (w : Cli.World Ext) (sess : Nat) (cidb 
       ldr_Healthy w' sess cidb { conn with lastSeq := ls } := by
   obtain ⟨haty, hentry, hndw, hpos, hle8⟩ := ldr_atomic_table c sz name t hat hb hsz
   have hel := ldw2_encode_arr_list t vs n bytes hb hvs henc
+  rw [RT.encodeList_argOf_canon t vs hcanon] at hel
   obtain ⟨hbl, hchunks⟩ := ldw2_encodeList_chunks (encode t) sz vs bytes
     (fun x hx e he => ldw_encode_length c sz t x e haty hb hsz (hcanon x hx) he) hel
   rw [hvs] at hbl
